@@ -100,6 +100,7 @@ HARNESSES = {
     },
     "eval": {
         "black_tables_are_mirrored_white_tables": {"complete": True, "note": "symbolic (stage, piece, square) over the real constant tables"},
+        "tables_bounded": {"complete": True, "note": "symbolic (stage, piece, square) over the real constant tables"},
         "material_and_stage_are_colour_symmetric": {"complete": True, "note": "popcount / emptiness are invariant under the vertical flip (byte swap), symbolic bitboards"},
     },
     "zobrist": {
